@@ -4,12 +4,41 @@ import json, subprocess, sys
 
 TECH = "contract-based deductive verification: contracts on the real Go functions (comment-only files behind build tag verif), VCs generated from /repo's typed AST by govc (symbolic execution, loops cut at invariants, calls by contract), regular-language lemmas on the real regexp literals with SMT-checked product certificates; discharged by z3 4.8.12 / z3 5.1.0 / cvc5 1.0.3"
 
+COMMON = " Common trusted base: govc itself (Go-subset semantics, VC generation, regex->DFA translation validated differentially against package regexp every run); assumed contracts of the Go standard library listed in /verif/spec/assumed.spec; UTF-8 facts U1-U3; mathematical integers with explicit no-overflow obligations under len(x) < 2^56."
+
 CLAIMED = {
+ "C01": ("Layer 1 only: every scanner and transition function of transition.go (eatWhiteSpace, eatAttrName, eatTagName, tText, tTag, tAttrName, tAfterName, tBeforeValue, tHTMLCmt, tSpecialTagEnd, indexTagEnd, tAttr, tError, nudge) is proved equal to a first-occurrence / recursive spec written from the HTML standard's character classes, for all byte strings (loop invariants, no bound); the chains chosen for text and quoted attributes end in the HTML escaper whose image is proved free of < > \" ' (C10 lemmas); actions in tag/attribute-name/unquoted positions are proved rejected (sanitizerForContext).",
+         "NOT proved: contextAfterText, escapeText, join, escapeAction and the simulation of the HTML5 tokenizer by the context machine (Layer 2) - the claim is 'Layer 1 proved, composition assumed'. Known finding C01-script-double-escaped-state (replayed on every run) shows Layer 2 is false for the script data double escaped state." , "4 C01"),
+ "C02": ("Policy rows and sanitizer chains: sanitizationContextForAttrVal/ForElementContent proved to demand at least the class of the reviewed policy for ALL element/attribute/rel strings (symbolic strings against /verif/spec/policy.spec); sanitizersForAttributeValue proved to build, for every (element, attribute) combination in the context, a chain that puts the typed-only / URL sanitizer first, the normalizer at URL start, only validated-prefix escaping chains after a static prefix, and an unconditional HTML escaper last; every typed-only sanitizer proved to fail on anything but its own safehtml type; URL sanitizers proved to return their input only if it is in URLAccept (C11: never javascript:).",
+         "Three KNOWN FINDINGS are reported on every run with their witnesses replayed on the real code: URL split over several actions, rel=\"alternate stylesheet\", memo key of derived templates ignores static prefix and rel (proved by a relational frame obligation on mangle). escapeAction/contextAfterText (what attr.value and linkRel record) are not under contract yet.", "4 C02"),
+ "C03": ("All eleven sanitize* functions proved against type-switch contracts over a tagged model of interface{} values: contents pass through only for the sanitizer's own safehtml type (after pointer indirection), every other value - whatever its type - gets exactly the result of the plain string with the same contents; attribute chains proved to end in a stage that escapes whatever it receives.",
+         "Interface values are modelled as (dynamic type tag, string contents); Indirect/Stringify (reflection) are assumed contracts. Finding C03-html-raw-in-attribute was found by obligation sanitizersForAttributeValue#post.policy and repaired (fix: commit 242a7af).", "4 C03"),
+ "C04": ("Default deny and 'never weaker than the reviewed policy' proved for all strings: unlisted (element, attribute) pairs and element contents yield an error; listed ones yield a class >= the oracle's (partial order trustge); enum sanitizers proved to emit only the policy's words and chains refuse static partial values in enum contexts; tag/attribute-name/unquoted positions rejected; conditional names (names lists) all checked by loop invariants over both lists.",
+         "Oracle = /verif/spec/policy.spec (written once from the policy as reviewed at the pinned commit, never regenerated). strings.Fields is named, not characterised (the link-rel rule is stated over its result). Failed obligations of the 300-literal table goals come back as solver 'unknown' rather than a model.", "4 C04"),
+ "C10": ("coerceToUTF8InterchangeValid proved equal to the spec transducer (per code point, specbad -> U+FFFD) for all strings, including the equivalence of the merged range table with the arithmetic definition of control and noncharacter code points; HTMLEscaped = htmlesc(coerce(s)); HTMLConcat = concatenation; the image language of escaping proved free of < > \" ' , & only in the five references, interchange-valid (regular-language lemmas).",
+         "html.EscapeString/UnescapeString are assumed to be the five-entry homomorphism and its left inverse (the round-trip clause rests on that); rangetable.Merge assumed to be the union; range-over-string = UTF-8 decoding assumed.", "4 C10"),
  "C11": ("URLSanitized/isSafeURL proved equal to membership in URLAccept = lower^-1(L(safeURLPattern) minus ^javascript:), for all strings; URLAccept proved disjoint from the WHATWG javascript-scheme language, also after character-reference decoding (over-approximated by 'anything after the first &'); converse clause proved as a language inclusion.",
-         "Assumed: regexp.MatchString/FindStringSubmatch semantics (regex->DFA translation validated differentially every run), strings.ToLower = rune-wise unicode.ToLower, UTF-8 facts U1-U3. BOUNDED stand-in (not counted as proved): capture group 1 of safeURLPattern equals \"javascript\" iff the lower-cased input starts with \"javascript:\".", "4 C11"),
- "C18": ("Both constructors proved: normal return implies the result is in ^[A-Za-z][-_A-Za-z0-9]*$ (language inclusion on the real patterns, including the concatenation prefix-hyphen-value) and equals prefix ++ \"-\" ++ value.",
-         "Assumed: regexp.MatchString semantics ($ is end of text without (?m)), string concatenation model, UTF-8 facts.", "4 C18"),
+         "BOUNDED stand-in (not counted as proved): capture group 1 of safeURLPattern equals \"javascript\" iff the lower-cased input starts with \"javascript:\". strings.ToLower = rune-wise unicode.ToLower assumed.", "4 C11"),
+ "C12": ("consumeIn/consumeNotIn proved to return the longest prefix in / not in the mask as views of the input; appendURLToSet proved to append exactly the URL with a leading/trailing comma percent-encoded; metadata check proved to imply the ParseFloat alphabet; the main loop proved safe and terminating and the result non-empty; the mask tables are extracted from init() and checked to be written nowhere else.",
+         "NOT proved yet: that the buffer stays in the canonical candidate-list language and idempotence (planned as invariant + lemmas); 'number' is defined as strconv.ParseFloat success (assumed contract). The WHATWG srcset parser exists only as the replay oracle.", "4 C12"),
+ "C13": ("urlProcessor proved equal to the RFC 3986 spec transducer (encupto) for all strings and its image proved inside (unreserved|%hh)* resp. the normalised alphabet via closure lemmas; Append, QueryEscapeURL, the Format closure (missing label -> error, '..' argument -> error, piece = escaped argument, error is sticky) and the fragment/separator logic of WithParams proved; prefix pattern proved inside the four documented ASCII forms; escaped pieces proved free of URL delimiters.",
+         "KNOWN FINDING C13-adjacent-markers-dotdot (two adjacent pieces build '..'; the single-piece lemma is proved with that region excluded). Finding C13-prefix-unicode-fold was found by the prefix lemma and repaired (fix: f5d6636). regexp.ReplaceAllStringFunc is an assumed higher-order contract; order independence of WithParams (sort) is not derived.", "4 C13"),
+ "C14": ("validateURLPrefix, validateTrustedResourceURLPrefix, decodeURLPrefix, validateDoesNotEndsWithCharRefPrefix, validateTrustedResourceURLSubstitution proved equal to spec predicates over the code's patterns; the chain choice per prefix class (TRU -> validate+queryEscape, prefix with ? or # -> queryEscape, else normalize, ambiguous -> error) proved inside sanitizersForAttributeValue; normalised / escaped images proved attribute-safe.",
+         "Idempotence of normalisation and the 'valid %XX kept' clause are not proved (alphabet restriction only). html.UnescapeString is an uninterpreted assumed function. Shares known finding C02-memo-key-ignores-prefix-and-rel.", "4 C14"),
+ "C15": ("StyleFromProperties proved to emit exactly D1..D17 (one declaration per non-empty field, documented names and order, ';' terminated) for all inputs, by 17 waypoints; filter, cssEscapeString (per-code-point spec) proved; value patterns proved inside the documented alphabets and inside a CSS-safe value language; font names and URL pieces proved escaped.",
+         "Finding C15-comma-in-regular-value was found by lemma C15.regular_value_alphabet and repaired (fix: c84af5c). The CSS Syntax 3 parse of the result is not modelled beyond the regular 'CSS-safe value' language.", "4 C15"),
+ "C16": ("CSSRule proved: success implies no '<', selector in SelectorAccepted, balanced residue, result = selector{style}; SelectorAccepted outside the known-finding region proved inside the CSS-safe selector language.",
+         "KNOWN FINDING C16-unquoted-url-token (replayed with a CSS tokenizer oracle). BOUNDED stand-ins: the ReplaceAllString+FindStringSubmatch characterisation (all strings <= 5 over class representatives) and hasBalancedBrackets = balanced (all strings <= 9 over '()[]a', run on the real code); hasBalancedBrackets uses container/list and is outside the subset.", "4 C16"),
+ "C17": ("Layout and name check proved: success implies name in ^[$_A-Za-z][$_A-Za-z0-9]*$ and result = \"var \" name \" = \" J \";\\n\" script with J the value returned by encoding/json.Marshal; failure returns the zero Script.",
+         "Thin by construction: inertness and round trip of J are the ASSUMED contract of encoding/json.Marshal (HTML-safe escaping), not proved.", "4 C17"),
+ "C18": ("Both constructors proved: normal return implies the result is in ^[A-Za-z][-_A-Za-z0-9]*$ (language inclusion on the real patterns, including prefix-hyphen-value) and equals prefix ++ \"-\" ++ value.",
+         "regexp.MatchString semantics assumed ($ is end of text without (?m)).", "4 C18"),
+ "C20": ("Success proved to imply: no '/' and no ':' in filename, filename != \"..\", result = filepath.Join(dir, src, filename).",
+         "That such a join is the cleaned directory or its direct child is the ASSUMED lemma about path/filepath.Join/Clean on Linux.", "4 C20"),
 }
+for k in CLAIMED:
+    t, n, r = CLAIMED[k]
+    CLAIMED[k] = (t, n + COMMON, r)
 
 NA = {
  "C09": "quantifies over thread schedules; per-call contracts and the sequential VC generator built here cannot express or decide interleavings (DESIGN.md section 5)",
